@@ -20,6 +20,7 @@ import (
 	"fmt"
 	"github.com/jrivets/log4g"
 	"github.com/logrange/logrange/pkg/model"
+	"github.com/logrange/logrange/pkg/utils/verifhook"
 	"github.com/logrange/range/pkg/records/chunk"
 	sync2 "github.com/logrange/range/pkg/sync"
 	errors2 "github.com/logrange/range/pkg/utils/errors"
@@ -591,6 +592,7 @@ func (ci *cindex) syncChunks(ctx context.Context, src string, cks chunk.Chunks) 
 		newSC, _ = newSC.apply(sc, true)
 	}
 	ci.lock.Unlock()
+	verifhook.At("tmindex.syncChunks.betweenLocks")
 
 	ci.dropSortedChunks(ctx, stale)
 	ci.lightFill(ctx, cks, newSC)
